@@ -39,23 +39,50 @@ Definition of_source (s : source) : term :=
 Definition of_stack (k : stack) : term :=
   TL [TZ (sk_value k); TL (map (fun i => TZ (Z.of_nat i)) (sk_sources k))].
 
-Definition run_C17 (i : term) : term :=
-  let p := profile_of (gn i 0) in
-  let ot := gn i 1 in
-  let o := opts_of ot in
-  let R := stacks_of (lookup (table_of (gn i 2))) (lookup (table_of (gn i 3))) o p in
+Definition of_stackset (ot : term) (R : stackset) : term :=
   let '(q, u) := scale_unit (gs (gn ot 3)) (to_Q17 (gn ot 5)) in
   TL [TZ (ss_total R); of_Q17 q; TS (ss_type R); TS u; TL (map of_stack (ss_stacks R));
       TL (map of_source (ss_sources R)); TZ 0].
 
+Definition is_seq (i : term) : bool := match gn i 0 with TS s => String.eqb s "seq" | _ => false end.
+
+(* a single call:   input = [profile; opts; shorten table; clean table]
+   a call sequence: input = ["seq"; profile; [opts of report 0; ...]; [report index of call 0; ...];
+                             shorten table; clean table]
+                    observable = [[stack set of call 0; ...]; profile held by the reports afterwards] *)
+Definition seq_opts (i : term) : list term :=
+  map (fun k => nth (Z.to_nat (gz k)) (gl (gn i 2)) (TL [])) (gl (gn i 3)).
+
+Definition run_C17 (i : term) : term :=
+  if is_seq i then
+    let ots := seq_opts i in
+    let '(Rs, p') := stacks_calls (lookup (table_of (gn i 4))) (lookup (table_of (gn i 5)))
+                                  (map opts_of ots) (profile_of (gn i 1)) in
+    TL [TL (map (fun oR => of_stackset (fst oR) (snd oR)) (combine ots Rs)); of_profile p']
+  else
+    let ot := gn i 1 in
+    of_stackset ot (stacks_of (lookup (table_of (gn i 2))) (lookup (table_of (gn i 3))) (opts_of ot)
+                              (profile_of (gn i 0))).
+
 (* everything is compared exactly, except Scale (float64 in Go, exact rational in the model) *)
-Definition eqv_C17 (i m o : term) : bool :=
+Definition eqv_one (m o : term) : bool :=
   match gl m, gl o with
   | [mt; ms; mty; mu; mst; msr; mn], [ot; os; oty; ou; ost; osr; on] =>
       term_eqb mt ot && qclose (to_Q17 ms) (to_Q17 os) && term_eqb mty oty && term_eqb mu ou
       && term_eqb mst ost && term_eqb msr osr && term_eqb mn on
   | _, _ => false
   end.
+
+Fixpoint eqv_list (ms os : list term) : bool :=
+  match ms, os with
+  | [], [] => true
+  | m :: ms', o :: os' => eqv_one m o && eqv_list ms' os'
+  | _, _ => false
+  end.
+
+Definition eqv_C17 (i m o : term) : bool :=
+  if is_seq i then eqv_list (gl (gn m 0)) (gl (gn o 0)) && term_eqb (gn m 1) (gn o 1)
+  else eqv_one m o.
 
 (* decode the implementation's observable; negative numbers where an index is expected are
    rejected separately ([nonneg]) because Z.to_nat would hide them *)
@@ -71,15 +98,37 @@ Definition nonneg (o : term) : bool :=
   forallb (fun k => forallb (fun z => 0 <=? z) (gzs (gn k 1))) (gl (gn o 4))
   && forallb (fun s => forallb (fun e => (0 <=? gz (gn e 0)) && (0 <=? gz (gn e 1))) (gl (gn s 5))) (gl (gn o 5)).
 
-Definition spec_C17 (i o : term) : bool :=
+Definition stackset_of (o : term) : option (Z * stackset) :=
   match gl o with
   | [_; _; _; _; _; _; _] =>
-      let p := profile_of (gn i 0) in
-      let R := {| ss_total := gz (gn o 0); ss_type := gs (gn o 2);
-                  ss_stacks := map stack_of (gl (gn o 4)); ss_sources := map source_of (gl (gn o 5)) |} in
-      nonneg o && check_stackset (opts_of (gn i 1)) p (gz (gn o 6)) R
-  | _ => false   (* panic, HTTP error, page without stack data: the client has nothing to show *)
+      if nonneg o then
+        Some (gz (gn o 6), {| ss_total := gz (gn o 0); ss_type := gs (gn o 2);
+                              ss_stacks := map stack_of (gl (gn o 4)); ss_sources := map source_of (gl (gn o 5)) |})
+      else None
+  | _ => None   (* panic, HTTP error, page without stack data: the client has nothing to show *)
   end.
+
+Fixpoint all_some {A} (l : list (option A)) : option (list A) :=
+  match l with
+  | [] => Some []
+  | Some a :: r => match all_some r with Some r' => Some (a :: r') | None => None end
+  | None :: _ => None
+  end.
+
+Definition spec_C17 (i o : term) : bool :=
+  if is_seq i then
+    (* every call of the sequence serves a correct stack set for the profile the reports were built
+       on, and that profile is afterwards what it was before the first call *)
+    match all_some (map stackset_of (gl (gn o 0))) with
+    | Some obs => check_calls (profile_of (gn i 1)) (map opts_of (seq_opts i)) obs
+                  && term_eqb (gn i 1) (gn o 1)
+    | None => false
+    end
+  else
+    match stackset_of o with
+    | Some (nulls, R) => check_stackset (opts_of (gn i 1)) (profile_of (gn i 0)) nulls R
+    | None => false
+    end.
 
 Definition cls_C17 (i : term) : list Z := [].
 
